@@ -794,6 +794,45 @@ fn mle(a: &Args) {
     out.finish();
 }
 
+/// huge out=<json> : the float-typed free estimators on sketches of 2^24 + 4097 positions (beyond the integers a single
+/// precision float counts exactly): identical sketches must give exactly 1, sketches that differ in 5 positions exactly
+/// (n - 5) / n in the function's own float type
+fn huge(a: &Args) {
+    silence_panics();
+    let n: usize = (1usize << 24) + 4097;
+    let mut cases: Vec<Value> = Vec::new();
+    macro_rules! go {
+        ($f:ty, $name:expr) => {{
+            let x: Vec<$f> = (0..n).map(|i| (i % 1000) as $f + 0.25).collect();
+            let mut y = x.clone();
+            for (k, want_diff) in [(0usize, 0usize), (1, 5)] {
+                if k == 1 {
+                    for j in 0..5 {
+                        y[j * 3_000_001 + 7] = -1.0;
+                    }
+                }
+                let want = ((n - want_diff) as $f / n as $f) as f64;
+                let want2 = (((n - want_diff) as f64 / n as f64) as $f) as f64;
+                for (fname, r) in [
+                    ("superminhasher::compute_superminhash_jaccard", catch(|| smh::compute_superminhash_jaccard(&x, &y).map(|v| v as f64).map_err(|_| ()))),
+                    ("superminhasher::get_jaccard_index_estimate", catch(|| smh::get_jaccard_index_estimate(&x, &y).map(|v| v as f64).map_err(|_| ()))),
+                ] {
+                    let (outcome, got) = match r {
+                        Ok(Ok(v)) => (if v == want || v == want2 { "exact" } else { "inexact" }, Some(v)),
+                        Ok(Err(_)) => ("refused", None),
+                        Err(_) => ("panic", None),
+                    };
+                    cases.push(json!({"fn": format!("{}<{}>", fname, $name), "len": n, "differing": want_diff, "outcome": outcome,
+                                      "got": got.map(|v| format!("{:e}", v)), "want": format!("{:e}", want)}));
+                }
+            }
+        }};
+    }
+    go!(f32, "f32");
+    go!(f64, "f64");
+    write_json(&a.str("out"), &json!({"cases": cases}));
+}
+
 fn main() {
     let argv: Vec<String> = std::env::args().skip(1).collect();
     if argv.is_empty() {
@@ -803,6 +842,7 @@ fn main() {
     match argv[0].as_str() {
         "count" => count(&a),
         "mle" => mle(&a),
+        "huge" => huge(&a),
         _ => tool_error("unknown mode"),
     }
 }
